@@ -98,6 +98,7 @@ def run_line(d, K, col, iback_entry, m, iters, scratch_U=None, generic_asm=False
     X = sx.Ex('core', pc=K.hyps + [nu >= 1, K.n[AX[d]] >= 3], funcs={'solve': solve_handler},
               loops={0: ('gen', 'nu', gen_nu), 1: ('gen', 'o1', gen_in), 2: ('gen', 'o2', gen_in),
                      3: asm, 5: ('sym', 'wb', dict(var=wbv, stop=True))})
+    X.continue_policy = 'assume-not'       # a conditional `continue` in a sweep: see the obligation sweep/no_line_is_skipped
     args = [K.a(p) if p != 'nu' else nu for p in params]
     if s_bases is not None:
         for i, p in enumerate(params):
@@ -198,6 +199,11 @@ def task_line(d, direction, case):
         col.lia(f'edge_interior/p{p}', hyps, z3.And(*spec.edge_interior(c, I, K.n)))
         col.lia(f'asm/row_p{p}_cells_written_only_by_modelled_iterations', hyps + hy0,
                 z3.And(only_modelled('amat', read_cells), only_modelled('bvec', [r])))
+    # every line of every sweep is relaxed: a `continue` that skips the assembly / solve / write-back of a line must never fire (otherwise the
+    # line relaxed last need not be exact -- the last-iteration corollary needs every iteration to run the body)
+    if case == 'middle':
+        skips = list(X.skipped)
+        col.lia('sweep/no_line_is_skipped', [], z3.And(*[z3.Implies(z3.And(*k['pc']), z3.Not(k['cond'])) for k in skips]) if skips else z3.BoolVal(True))
     if case == 'middle':
         # canary: without the coupling to the right neighbour block the identity must fail
         r = 5 * m
